@@ -56,12 +56,19 @@ where
         // the vector should be strictly monotonic rising, otherwise we will
         // produce grabage
 
+        #[cfg(ndarray_interp_verif)]
+        crate::verif_hooks::sched_point("lookup:enter");
+
         // check in range, otherwise return the first or second last index
         // this allows for extrapolation
         if x <= self[0] {
+            #[cfg(ndarray_interp_verif)]
+            crate::verif_hooks::record_lookup(crate::verif_hooks::LookupExit::ClampLeft, 0);
             return 0;
         }
         if x >= self[self.len() - 1] {
+            #[cfg(ndarray_interp_verif)]
+            crate::verif_hooks::record_lookup(crate::verif_hooks::LookupExit::ClampRight, 0);
             return self.len() - 2;
         }
 
@@ -83,9 +90,17 @@ where
         let mid_idx: usize =
             cast(mid).unwrap_or_else(|| unimplemented!("failed to convert {mid:?} to usize"));
 
+        #[cfg(ndarray_interp_verif)]
+        {
+            crate::verif_hooks::record_guess(mid_idx);
+            crate::verif_hooks::sched_point("lookup:guess");
+        }
+
         let mid_x = self[mid_idx];
 
         if mid_x <= x && x < self[mid_idx + 1] {
+            #[cfg(ndarray_interp_verif)]
+            crate::verif_hooks::record_lookup(crate::verif_hooks::LookupExit::GuessHit, 0);
             return mid_idx;
         }
         if mid_x <= x {
@@ -97,7 +112,13 @@ where
 
         // the spacing was apparently not even, do binary search
         // O(log n)
+        #[cfg(ndarray_interp_verif)]
+        let mut bisect_steps = 0u64;
         while range.0 + 1 < range.1 {
+            #[cfg(ndarray_interp_verif)]
+            {
+                bisect_steps += 1;
+            }
             let mid_idx = (range.1 - range.0) / 2 + range.0;
             let mid_x = self[mid_idx];
 
@@ -107,6 +128,8 @@ where
                 range.1 = mid_idx;
             }
         }
+        #[cfg(ndarray_interp_verif)]
+        crate::verif_hooks::record_lookup(crate::verif_hooks::LookupExit::Bisect, bisect_steps);
         range.0
     }
 }
